@@ -153,7 +153,7 @@ int sqfs_inode_make_extended(sqfs_inode_generic_t *inode)
 		break;
 	case SQFS_INODE_FIFO:
 	case SQFS_INODE_SOCKET:
-		inode->data.dev_ext.xattr_idx = 0xFFFFFFFF;
+		inode->data.ipc_ext.xattr_idx = 0xFFFFFFFF;
 		break;
 	case SQFS_INODE_EXT_DIR:
 	case SQFS_INODE_EXT_FILE:
